@@ -14,8 +14,12 @@
 (* element of the copy Sub (fire or skip) ; a fired callback runs a script of operations on ANY event   *)
 (* (CbOp ... CbReturn) ; FinishFd ; EndPass.                                                            *)
 (*                                                                                                      *)
-(* The order in which latched descriptors are served and the order in which the subscribers of one      *)
-(* descriptor are served are left open (the statement does not fix them).                               *)
+(* The order in which latched descriptors are served is left open (the statement does not fix it).     *)
+(* The subscribers of ONE descriptor are served in the order in which they were enabled (subs is a       *)
+(* sequence: enable() appends, disable() erases keeping the order of the others; the copy is walked      *)
+(* front to back): the statement makes the two back-ends deliver the same callbacks whenever the order   *)
+(* of DESCRIPTORS does not matter - in particular in every single-descriptor scenario - so the order of  *)
+(* subscribers is part of the contract both back-ends share, and enable order is what both implement.    *)
 (*                                                                                                      *)
 (* Fix6/Fix7/Fix8 = TRUE model the intended (repaired) behaviour; FALSE models the code as found:       *)
 (*   Fix6  dispatch re-validates every element of the copy against the live subscriber list (and the    *)
@@ -41,7 +45,7 @@ VARIABLES ev, recs, map, pool, ready, closed,
           phase,        \* "idle" | "pass"
           rlist,        \* latched entries of this pass not served yet: [fd, mask, rec]
           cur,          \* entry being served (NoCur = none)
-          copy,         \* elements of the subscriber-list copy not visited yet
+          copy,         \* rest of the subscriber-list copy (sequence) not visited yet
           run,          \* event whose callback is running (0 = none)
           opsLeft, passes,
           pins,         \* descriptors whose record is referenced by the dispatcher
@@ -54,7 +58,9 @@ vars == <<ev, recs, map, pool, ready, closed, phase, rlist, cur, copy, run, opsL
 RID == FD                               \* pool blocks: never more than one live record per descriptor
 Conds == UNION Masks                    \* conditions that matter in this model
 NoCur == [fd |-> 0, mask |-> {}, rec |-> 0]
-DeadRec == [live |-> FALSE, fd |-> 0, ref |-> 0, subs |-> {}]
+DeadRec == [live |-> FALSE, fd |-> 0, ref |-> 0, subs |-> <<>>]
+Range(s) == {s[i] : i \in 1..Len(s)}
+Without(s, e) == SelectSeq(s, LAMBDA x : x # e)      \* vector::erase keeps the order of the others
 NoEv == [st |-> "none", fd |-> 0, mask |-> {}, os |-> FALSE, en |-> FALSE]
 
 (* ------------------------------ the heap: events, records, map, pool ------------------------------ *)
@@ -65,7 +71,7 @@ InPool(h, r) == \E i \in 1..Len(h.pool) : h.pool[i] = r
 Alloc(h, fd) ==                                   \* ObjectPool::alloc + fd_data_map_.insert
   LET r == IF h.pool # <<>> THEN Head(h.pool) ELSE CHOOSE x \in RID : ~h.recs[x].live /\ ~InPool(h, x)
   IN [h EXCEPT !.pool = IF h.pool # <<>> THEN Tail(h.pool) ELSE h.pool,
-               !.recs[r] = [live |-> TRUE, fd |-> fd, ref |-> 0, subs |-> {}],
+               !.recs[r] = [live |-> TRUE, fd |-> fd, ref |-> 0, subs |-> <<>>],
                !.map[fd] = r]
 RefFd(h, fd) ==                                   \* refFdSharedData(fd)
   LET h1 == IF h.map[fd] = 0 THEN Alloc(h, fd) ELSE h
@@ -79,11 +85,11 @@ UnrefFd(h, fd) ==                                 \* unrefFdSharedData(fd)
 HEnable(h, e) ==
   LET v == h.ev[e] IN
   IF v.fd = 0 \/ v.en THEN h
-  ELSE [h EXCEPT !.ev[e].en = TRUE, !.recs[h.map[v.fd]].subs = @ \cup {e}]
+  ELSE [h EXCEPT !.ev[e].en = TRUE, !.recs[h.map[v.fd]].subs = Append(@, e)]
 HDisable(h, e) ==
   LET v == h.ev[e] IN
   IF v.fd = 0 \/ ~v.en THEN h
-  ELSE [h EXCEPT !.ev[e].en = FALSE, !.recs[h.map[v.fd]].subs = @ \ {e}]
+  ELSE [h EXCEPT !.ev[e].en = FALSE, !.recs[h.map[v.fd]].subs = Without(@, e)]
 HDestroy(h, e) ==
   LET h1 == HDisable(h, e)
       h2 == UnrefFd(h1, h1.ev[e].fd)
@@ -122,7 +128,7 @@ Init ==
   /\ ev \in [E -> {[st |-> "alive", fd |-> 0, mask |-> m, os |-> o, en |-> FALSE] : m \in Masks, o \in BOOLEAN}]
   /\ recs = [r \in RID |-> DeadRec] /\ map = [fd \in FD |-> 0] /\ pool = <<>>
   /\ ready = [fd \in FD |-> {}] /\ closed = [fd \in FD |-> FALSE]
-  /\ phase = "idle" /\ rlist = {} /\ cur = NoCur /\ copy = {} /\ run = 0 /\ opsLeft = 0 /\ passes = 0
+  /\ phase = "idle" /\ rlist = {} /\ cur = NoCur /\ copy = <<>> /\ run = 0 /\ opsLeft = 0 /\ passes = 0
   /\ pins = {} /\ pollReady = [fd \in FD |-> {}] /\ cbEn = FALSE /\ viol = {}
 
 (* ---------------------------------- between passes (main level) ---------------------------------- *)
@@ -139,7 +145,7 @@ SetReady(fd, S) ==                                \* the environment: bytes arri
   /\ UNCHANGED <<ev, recs, map, pool, closed>> /\ UNCHANGED passVars
 
 (* -------------------------------------------- one pass -------------------------------------------- *)
-Interest(fd) == IF map[fd] = 0 THEN {} ELSE UNION {ev[e].mask : e \in recs[map[fd]].subs}
+Interest(fd) == IF map[fd] = 0 THEN {} ELSE UNION {ev[e].mask : e \in Range(recs[map[fd]].subs)}
 BadFds == {fd \in FD : closed[fd] /\ Interest(fd) # {}}
 
 \* pin (take a dispatcher reference on) the records of a set of descriptors / drop them again
@@ -154,7 +160,7 @@ Poll ==
      THEN \* select() fails with EBADF: nothing is served in this pass, the events on invalid descriptors are disabled
           /\ LET RECURSIVE DisAll(_, _)
                  DisAll(h, S) == IF S = {} THEN h ELSE LET e == CHOOSE x \in S : TRUE IN DisAll(HDisable(h, e), S \ {e})
-             IN SetHeap(DisAll(Heap, UNION {recs[map[fd]].subs : fd \in BadFds}))
+             IN SetHeap(DisAll(Heap, UNION {Range(recs[map[fd]].subs) : fd \in BadFds}))
           /\ UNCHANGED <<phase, rlist, pins, pollReady>>
      ELSE LET L == {fd \in FD : ~closed[fd] /\ (ready[fd] \cap Interest(fd)) # {}} IN
           /\ rlist' = {[fd |-> fd, mask |-> ready[fd] \cap Interest(fd), rec |-> IF Backend = "epoll" THEN map[fd] ELSE 0] : fd \in L}
@@ -192,13 +198,13 @@ Fire(e) ==
   /\ viol' = viol \cup FireFlags(e)
 
 Sub(e) ==                                         \* next element of the copy
-  /\ cur # NoCur /\ run = 0 /\ viol = {} /\ e \in copy
-  /\ copy' = copy \ {e}
+  /\ cur # NoCur /\ run = 0 /\ viol = {} /\ copy # <<>> /\ e = Head(copy)
+  /\ copy' = Tail(copy)
   /\ UNCHANGED <<ready, closed, phase, rlist, cur, passes, pins, pollReady>>
   /\ IF Fix6
      THEN IF ~recs[cur.rec].live
           THEN Flag("uaf-record") /\ UNCHANGED <<ev, recs, map, pool, run, opsLeft, cbEn>>     \* live list read from a parked block
-          ELSE IF e \in recs[cur.rec].subs /\ Fires(e) THEN Fire(e)
+          ELSE IF e \in Range(recs[cur.rec].subs) /\ Fires(e) THEN Fire(e)
                ELSE UNCHANGED <<ev, recs, map, pool, run, opsLeft, cbEn, viol>>
      ELSE IF ev[e].st # "alive"
           THEN Flag("uaf-event") /\ UNCHANGED <<ev, recs, map, pool, run, opsLeft, cbEn>>      \* onEvent() on a deleted object
@@ -215,7 +221,7 @@ CbReturn ==
   /\ UNCHANGED <<ready, closed, phase, rlist, cur, copy, passes, pins, pollReady, viol>>
 
 FinishFd ==
-  /\ cur # NoCur /\ run = 0 /\ viol = {} /\ copy = {}
+  /\ cur # NoCur /\ run = 0 /\ viol = {} /\ copy = <<>>
   /\ cur' = NoCur
   /\ IF Backend = "select" /\ Fix6 THEN pins' = pins \ {cur.fd} /\ SetHeap(UnrefFd(Heap, cur.fd))
                                     ELSE UNCHANGED <<pins, ev, recs, map, pool>>
@@ -239,9 +245,9 @@ Spec == Init /\ [][Next]_vars
 TypeOK ==
   /\ \A e \in E : ev[e].st \in {"none", "alive", "dead"} /\ ev[e].fd \in FD \cup {0} /\ ev[e].mask \subseteq Conds
                   /\ ev[e].os \in BOOLEAN /\ ev[e].en \in BOOLEAN
-  /\ \A r \in RID : recs[r].live \in BOOLEAN /\ recs[r].fd \in FD \cup {0} /\ recs[r].ref \in Nat /\ recs[r].subs \subseteq E
+  /\ \A r \in RID : recs[r].live \in BOOLEAN /\ recs[r].fd \in FD \cup {0} /\ recs[r].ref \in Nat /\ Range(recs[r].subs) \subseteq E
   /\ \A fd \in FD : map[fd] \in RID \cup {0} /\ ready[fd] \subseteq Conds /\ closed[fd] \in BOOLEAN
-  /\ phase \in {"idle", "pass"} /\ run \in E \cup {0} /\ copy \subseteq E /\ pins \subseteq FD
+  /\ phase \in {"idle", "pass"} /\ run \in E \cup {0} /\ Range(copy) \subseteq E /\ pins \subseteq FD
 
 \* a callback is invoked only on an event that exists and is enabled
 OnlyEnabledFires == "fire-disabled" \notin viol /\ (run # 0 => ev[run].st = "alive")
@@ -260,7 +266,8 @@ RefCountsExact ==
     LET n == Cardinality({e \in E : ev[e].st = "alive" /\ ev[e].fd = fd}) + (IF fd \in pins THEN 1 ELSE 0) IN
     IF n = 0 THEN map[fd] = 0
     ELSE /\ map[fd] # 0 /\ recs[map[fd]].live /\ recs[map[fd]].fd = fd /\ recs[map[fd]].ref = n
-         /\ recs[map[fd]].subs = {e \in E : ev[e].st = "alive" /\ ev[e].fd = fd /\ ev[e].en}
+         /\ Range(recs[map[fd]].subs) = {e \in E : ev[e].st = "alive" /\ ev[e].fd = fd /\ ev[e].en}
+         /\ Len(recs[map[fd]].subs) = Cardinality(Range(recs[map[fd]].subs))        \* no event twice
 \* the pool holds exactly the dead blocks that were used before, each once
 PoolSane == \A i, j \in 1..Len(pool) : (i # j => pool[i] # pool[j]) /\ ~recs[pool[i]].live
 =============================================================================
